@@ -27,6 +27,14 @@ a cache whose hit is cheaper than its miss (`cached_gas_breaks_determinism`).
 iteration orders) ends in the same state with the same outputs for all schedules and all operation lists
 (`run_schedule_independent`); the variant of `UpdateProposalOracles` that collects the oracles to unbond by ranging over a
 map does not (`mapFed_unbond_schedule_dependent`); which variant the source has is regenerated (`unbond_order_from_store`).
+(h) a JSON oneof is resolved by the dependency in MAP order (regenerated fact): every JSON decode into a oneof-carrying message
+is followed by the canonical-encoding check (`decode_sites_covered`); the REGENERATED statement program of the IBC middleware's
+acknowledgement callback, interpreted under adversarial schedules, gives the same state, gas and result for all schedules and all
+byte strings (`ack_canonical_first_schedule_independent`, `ack_source_schedule_independent`), and does not without the check or
+with the check after the inner call (`ack_unchecked_schedule_dependent`, `ack_check_after_inner_gas_dependent`).
+(i) caches of STATE-DERIVED data: the node theorem for invariants relating memory and state, with the hypothesis about discarded
+executions explicit (`coherent_cache_process_history_irrelevant`); the write-through cache of the seeded shape is invisible exactly
+as long as nothing it executed is discarded (`writeThrough_cache_invisible_without_discards`, `writeThrough_cache_breaks_determinism`).
 Scheduler-, allocator- and dependency-level nondeterminism is outside the model: validated by repeated-process runs.
 -/
 namespace FxVerif.Props.C17
